@@ -17,18 +17,69 @@ ASSUMPTIONS = [
 BUDGET_S = {"quick": 28, "thorough": 400}
 
 
+NONSTR_SEQS = [["1", "1.0", "True"], ["1.0", "1", "True"], ["True", "1.0", "1"], ["2024", "2024.0"], ["2024.0", "2024"],
+               ["(1, 2)", "(1.0, 2.0)"]]      # falsy names (0, False) are treated as "unnamed" by the library: not generated
+
+
 def generate(rng, tier):
-    return X.generate(rng, tier)
+    # the `<sanitised column>_<function>` part of aggregate/window names for NON-STRING column names (Table({1: …})):
+    # the sanitised form of a name is defined through str(name); hash-equal names of different types (1, 1.0, True) must not
+    # be confused. Judged in Python (the Lean model has string names only): a direct oracle comparison, labelled as such.
+    for seq in NONSTR_SEQS:
+        yield {"fam": "nonstr-names", "names": seq}
+    yield from X.generate(rng, tier)
+
+
+def _nonstr(spec):
+    import ast, warnings
+    from serif import Table
+    from serif.naming import _sanitize_user_name
+    names = [ast.literal_eval(s) for s in spec["names"]]
+    fails = []
+    with warnings.catch_warnings():
+        warnings.simplefilter("ignore")
+        for nm in names:
+            t = Table({"k": [1, 1, 2], nm: [1, 2, 3]})
+            try:
+                got = t.aggregate(over="k", sum_over=t.cols()[1]).column_names()[1:]
+            except Exception as e:
+                fails.append(f"aggregate over a column named {nm!r} raised {type(e).__name__}")
+                continue
+            want = (_sanitize_user_name(str(nm)) or "col") + "_sum"
+            if got != [want]:
+                fails.append(f"column named {nm!r}: aggregate output {got}, expected ['{want}'] (sanitised str({nm!r}) + '_sum')")
+    w = {"fam": "nonstr-names", "case": {"names": spec["names"]}, "impl": {"checked": len(names)}}
+    if fails:
+        w["py_fail"] = "; ".join(fails)
+    else:
+        w["skip"] = "consistent (judged in Python)"
+    return w
 
 
 def execute(spec):
+    if spec.get("fam") == "nonstr-names":
+        return _nonstr(spec)
     return X.execute(spec, PID)
 
 
-nontrivial = X.nontrivial
-histogram = X.histogram
-shrink = X.shrink
-snippet = X.snippet
+def nontrivial(spec, wire):
+    return True if spec.get("fam") == "nonstr-names" else X.nontrivial(spec, wire)
+
+
+def histogram(spec, wire):
+    return ["nonstr-names"] if spec.get("fam") == "nonstr-names" else X.histogram(spec, wire)
+
+
+def shrink(spec):
+    if spec.get("fam") == "nonstr-names":
+        return iter(())
+    return X.shrink(spec)
+
+
+def snippet(spec):
+    if spec.get("fam") == "nonstr-names":
+        return "\n".join(f"Table({{'k': [1, 1, 2], {n}: [1, 2, 3]}}).aggregate(over='k', sum_over=...)  # names" for n in spec["names"])
+    return X.snippet(spec)
 KNOWN = {}
 
 LEVEL_TEXT = ("Proof: for the same Lean model of the public operations as C03, step_names proves that the names of the result of "
